@@ -165,16 +165,16 @@ structure Ver where
   patch : Nat
 deriving DecidableEq, Repr
 
-/-- SWITCH (the model follows the code). `false`: /repo as it is — `ParseBlockVersion` accepts version
-strings of any length. `true`: with `proposed-fixes/C02-long-protocol-version-wraps-mod-p.diff` strings
-longer than 31 bytes are a parse error. Tied by the `dispatch` / `bh` lines with 40-byte strings. -/
-def versionLengthLimited : Bool := false
+/-- SWITCH (the model follows the code). `true`: /repo since fix 2e0402b — `ParseBlockVersion` rejects
+version strings longer than 31 bytes (they would not fit a field element unreduced). `false`: the code
+before that commit (any length accepted). Tied by the `dispatch` / `bh` lines with 40-byte strings. -/
+def versionLengthLimited : Bool := true
 
-/-- `ParseBlockVersion`: empty string is 0.0.0; only the first three dot-separated parts are parsed,
-anything after them is ignored; missing parts are 0. -/
-def parseVersion (v : Bytes) : Option Ver :=
+/-- `ParseBlockVersion`: empty string is 0.0.0; (since 2e0402b: at most 31 bytes;) only the first three
+dot-separated parts are parsed, anything after them is ignored; missing parts are 0. -/
+def parseVersionWith (lengthLimited : Bool) (v : Bytes) : Option Ver :=
   if v.isEmpty then some ⟨0, 0, 0⟩ else
-  if versionLengthLimited && v.length > 31 then none else
+  if lengthLimited && v.length > 31 then none else
   let parts := splitDots v
   let get (i : Nat) : Option Nat :=
     match parts[i]? with
@@ -183,6 +183,9 @@ def parseVersion (v : Bytes) : Option Ver :=
   match get 0, get 1, get 2 with
   | some a, some b, some c => some ⟨a, b, c⟩
   | _, _, _ => none
+
+/-- `ParseBlockVersion` of the code as it is -/
+def parseVersion (v : Bytes) : Option Ver := parseVersionWith versionLengthLimited v
 
 /-- semver `GreaterThanEqual` without pre-release parts. -/
 def Ver.ge (a b : Ver) : Bool :=
